@@ -189,19 +189,21 @@ func run(r *eng.Run, k kase, verbose bool) *eng.Violation {
 		if entry == "mixed" {
 			entry = entriesAll[i%len(entriesAll)]
 		}
-		// the first offer carries the real bytes of the file at p (so that Get
-		// can serve them); later offers are further blocks with the same FullPath
+		// every offer carries real bytes of the file at p when there is one (so
+		// that Get can serve them), like the successive blocks of one file
 		data := []byte(fmt.Sprintf("offer %d: no regular file at %s", i, p))
 		isFile := false
-		if i == 0 {
-			if st, err := os.Stat(abs(p)); err == nil && st.Mode().IsRegular() && p != "" {
-				b, err := os.ReadFile(abs(p))
-				must(err)
-				data, isFile = b, true
+		off := 0
+		if st, err := os.Stat(abs(p)); err == nil && st.Mode().IsRegular() && p != "" {
+			b, err := os.ReadFile(abs(p))
+			must(err)
+			if len(b) > i {
+				// offer i is the block at offset i of that file: distinct CIDs, all servable
+				data, isFile, off = b[i:], true, i
 			}
 		}
 		node := dag.NewRawNode(data)
-		err := f.put(entry, &posinfo.FilestoreNode{Node: node, PosInfo: &posinfo.PosInfo{FullPath: p, Offset: 0}})
+		err := f.put(entry, &posinfo.FilestoreNode{Node: node, PosInfo: &posinfo.PosInfo{FullPath: p, Offset: uint64(off)}})
 		in := inside(root, p)
 		hist := "first-offer"
 		switch {
